@@ -365,6 +365,18 @@ type c01S struct {
 	C []int
 }
 
+// hostile values: their own Error()/String()/GoString()/Format methods panic (fmt recovers from such panics when it
+// renders a value, so no Maybe observer may panic because of them either)
+type c01BadErr struct{ error } // embeds a nil error: Error() dereferences nil
+
+type c01BadStringer struct{ m map[string]int }
+
+func (b c01BadStringer) String() string { b.m["x"] = 1; return "never" } // writes to a nil map
+
+type c01BadPtrStringer struct{ n *int }
+
+func (b *c01BadPtrStringer) String() string { return fmt.Sprint(*b.n) } // nil dereference through a pointer receiver
+
 func runC01(c *core.Ctx) {
 	e := &c01Env{c: c}
 	i1, i2 := 7, 9
@@ -389,6 +401,7 @@ func runC01(c *core.Ctx) {
 		nilSlice, []int{}, []int{1, 2}, []any{nil, 1}, nilMap, map[string]int{}, map[string]int{"a": 1}, nilFn, fn, nilCh, ch,
 		p1, &p1, nilInt, pnil, nilS, s1, &s1, (*[]int)(nil), &nilSlice, (*any)(nil), up, unsafe.Pointer(nil), nilErr, fmt.Errorf("e"),
 		fpgo.None, fpgo.Maybe.Just(1), fpgo.Maybe.Just(nil), fpgo.Maybe.Just(fpgo.Maybe.Just("x")), fpgo.JustGenerics(5), fpgo.JustGenerics[*int](nil),
+		c01BadErr{}, &c01BadErr{}, c01BadStringer{}, &c01BadStringer{}, &c01BadPtrStringer{}, error(c01BadErr{}), fmt.Stringer(c01BadStringer{}),
 		reflect.ValueOf(1), // (no reflect.Type: a copied runtime type descriptor is invalid by construction of the Go runtime, not of fpGo)
 	}
 	for i, v := range corpus {
@@ -457,6 +470,9 @@ func runC01(c *core.Ctx) {
 	c01Typed(e, "unsafe.Pointer", []unsafe.Pointer{nil, up}, unsafe.Pointer(&i1))
 	c01Typed(e, "error", []error{nil, fmt.Errorf("x")}, fmt.Errorf("fb"))
 	c01Typed(e, "any", []any{nil, 1, nilInt, p1, "s"}, any("fb"))
+	c01Typed(e, "error(hostile)", []error{c01BadErr{}, &c01BadErr{}}, fmt.Errorf("fb"))
+	c01Typed(e, "fmt.Stringer(hostile)", []fmt.Stringer{c01BadStringer{}, &c01BadPtrStringer{}}, fmt.Stringer(nil))
+	c01Typed(e, "struct(hostile)", []c01BadStringer{{}}, c01BadStringer{m: map[string]int{}})
 	c01Typed(e, "MaybeDef[any]", []fpgo.MaybeDef[any]{nil, fpgo.None, fpgo.Maybe.Just(1), fpgo.Maybe.Just(fpgo.None)}, fpgo.Maybe.Just("fb"))
 
 	// ---- PRNG-built values (random nesting of pointers / Maybes / typed nil pointers)
@@ -527,7 +543,7 @@ func init() {
 		Meta: func(c *core.Ctx) core.Meta {
 			return core.Meta{
 				Level: "exploration",
-				Rule: "value corpus = every Go kind x {zero, typical, nil/typed-nil} (bool, ints, uints, floats, complex, string, array, struct with unexported fields, slice, map, func, chan, *T, **T, pointer to nil pointer, typed nil pointers, untyped nil, unsafe.Pointer, error, nested Maybe depth 1..4, None, Just(None)) x {Maybe.Just, JustGenerics[any], JustGenerics[T] for 21 concrete T} x every MaybeDef method and the 10 extra conversions, plus PRNG-built values with random pointer/Maybe/typed-nil nesting. " +
+				Rule: "value corpus = every Go kind x {zero, typical, nil/typed-nil} (bool, ints, uints, floats, complex, string, array, struct with unexported fields, slice, map, func, chan, *T, **T, pointer to nil pointer, typed nil pointers, untyped nil, unsafe.Pointer, error, nested Maybe depth 1..4, None, Just(None), values whose own Error()/String() methods panic) x {Maybe.Just, JustGenerics[any], JustGenerics[T] for 21 concrete T} x every MaybeDef method and the 10 extra conversions, plus PRNG-built values with random pointer/Maybe/typed-nil nesting. " +
 					"Oracle: reflect-based absent(v); observers must agree with it; law instances (left/right identity, associativity over a function family) compared by observation tuples; ToMaybe must remove exactly one nesting level; Clone of a pointer must be a distinct deep-equal target. distinct_nontrivial = distinct (constructor, value, observer) cells",
 				Assumptions: []string{"nil func/map/chan/slice and nil unsafe.Pointer are present (only untyped nil and nil pointers are absent)",
 					"ToPtr/IsValid/IsPtr/Kind/Unwrap/IsType/IsKind are only required not to panic", "ToMaybe flattening is only expressible for the interface{} instantiation; for concrete T it must be the identity",
